@@ -14,9 +14,22 @@ unions of those, nested to any depth) and ALL token contexts:
    `T[][]` is not read at all (K1).
 -/
 import LuaHelper.Model.Annot
+import LuaHelper.Gen.Shapes
 namespace LuaHelper.C16
 open LuaHelper.Annot
 abbrev Bytes := LuaHelper.Lex.Bytes
+
+/-- the model's keyword table is the Go map `keywords` of annotate_token.go (regenerated every run) -/
+theorem keywords_match :
+    Gen.annotKeywords =
+      ["alias=ATokenKwAlias", "class=ATokenKwClass", "const=ATokenKwConst", "enum=ATokenKwEnum", "field=ATokenKwField",
+       "fun=ATokenKwFun", "generic=ATokenKwGeneric", "overload=ATokenKwOverload", "param=ATokenKwParam",
+       "private=ATokenKwPrivate", "protected=ATokenKwProtected", "public=ATokenKwPubic", "return=ATokenKwReturn",
+       "table=ATokenKwTable", "type=ATokenKwType", "vararg=ATokenKwVararg"] ∧
+    (kwTable.map (·.1)).length = 16 ∧
+    ∀ w ∈ ["alias", "class", "const", "enum", "field", "fun", "generic", "overload", "param", "private", "protected",
+           "public", "return", "table", "type", "vararg"], (kwTable.map (·.1)).contains w = true := by decide
+#print axioms keywords_match
 
 /-- the token after a printed type must not continue it -/
 def Stops (rest : List Tok) : Prop :=
